@@ -368,7 +368,7 @@ class IndexedSet(MutableSet):
         "symmetric_difference_update(other) -> in-place XOR with other"
         if self is other:
             self.clear()
-        for val in other:
+        for val in self.from_iterable(other):  # each distinct value once
             if val in self:
                 self.discard(val)
             else:
